@@ -38,10 +38,27 @@ RULE = ("(1) inversions: imaging datasets on random masks (densities 0.15-0.9, s
         "objects, then the first dataset again; DatasetInterface with the noise map scaled by arithmetic and the stale w_tilde "
         "(InversionException expected from the w-tilde class, normal equations of the scaled noise from the mapping class); a dataset "
         "derived by a second apply_mask; a dataset derived by apply_over_sampling; every inversion judged (KInvW) on the values read from "
-        "the dataset actually passed in at that moment. (3) every anchored util function called directly on synthetic inputs (random sparse "
+        "the dataset actually passed in at that moment; further steps: the parts of the dataset as DERIVED structures (copy, deepcopy, * 1.0, + 0.0, "
+        "-(-a), .native.slim, .slim of a natively stored array) through a DatasetInterface; calls WITHOUT settings / preloads (the shared "
+        "default objects of the signatures) through the factory and through both classes on the first dataset, a second one, the first again. "
+        "(4) kinds: the same VALUES as other KINDS of input at the class layer -- data / noise map / psf integer-typed, float32, nested "
+        "lists, Fortran-ordered, strided views; basis functions and operated overrides integer-typed / float32 / Fortran / views -- along "
+        "other CONSTRUCTOR PATHS (Imaging from already-masked arrays, apply_mask after another mask, DatasetInterface), with trivial "
+        "SUBCLASSES of Imaging, Array2D, Kernel2D, the mappers, the function list, SettingsInversion, Preloads, DatasetInterface, a psf whose "
+        "pixel scales differ from the data's, the interferometer-only settings switched on, frames as small as the kernel permits (one "
+        "admissible row / column), through aa.Inversion (keywords / positional / with an empty Preloads), factory.inversion_imaging_from "
+        "and both classes constructed directly; judged exactly on the descriptor's values; per formalism the per-object dictionaries for an "
+        "injected reconstruction of odd eighths (mapped_reconstructed_data_dict[obj_i] = the model with r restricted to object i, keys "
+        "in object order, mapped_reconstructed_data / _image = their sum, reconstruction_dict, data_subtracted_dict). (5) preld: the "
+        "branches that take a quantity from the Preloads object (operated_mapping_matrix; curvature_matrix; the two function-list "
+        "dictionaries; mapper_operated_mapping_matrix_dict + data_vector_mapper + curvature_matrix_mapper_diag with the same mappers and "
+        "OTHER function lists), filled from a first inversion as the library does: the result is still the normal equations of the "
+        "objects passed in, curvature_reg_matrix never reaches the preloaded arrays, a second instance with the same Preloads object "
+        "returns the same. Around EVERY case the shared default argument objects of the anchored signatures are fingerprinted. (3) every anchored util function called directly on synthetic inputs (random sparse "
         "encodings with filler entries, random upper-triangular preloads, asymmetric matrices for the mirror, duplicate indices for the "
-        "diagonal term). Non-trivial = at least 2 unmasked pixels and a kernel with more than one non-zero entry (inversion cases) / any "
-        "session or util case; distinct = distinct JSON input.")
+        "diagonal term); every array argument handed over as a random kind (integer-typed where integral -- every other round all "
+        "matrices integral and integer-typed --, int32 indices, Fortran-ordered, strided view), READ-ONLY and fingerprinted. Non-trivial = at least 2 unmasked pixels and a kernel with more than one non-zero entry (inversion and kinds cases) / any "
+        "session, preload or util case; distinct = distinct JSON input.")
 EXHAUSTIVE = {}
 TRUSTED = ["hand-written Gallina model coq/Model/C04.v (scatter loops, sequential symmetrisation / mirror / block assignments, running-index "
            "walk of the preload, param ranges by running count, the w_tilde object handed over separately with check_noise_map, the factory's "
@@ -61,7 +78,11 @@ ASSUMPTIONS = ["real arithmetic (no rounding): theorems over R; correspondence e
                "kernel footprint of every unmasked pixel inside the frame (the property's quantifier); positive noise on unmasked pixels",
                "a w_tilde object handed over separately comes from an Imaging with the same mask, psf and noise map (a stale object that passes "
                "the first-value test of check_noise_map is the caller's error: no claim); linear objects pairwise distinct",
-               "of the Preloads object only w_tilde and use_w_tilde are exercised here (the other fields are C15's)"]
+               "Preloads: w_tilde / use_w_tilde in the sessions; the linear-algebra fields (operated_mapping_matrix, curvature_matrix, the "
+               "function-list dictionaries, the mapper-only triple) only with values taken from a first inversion on the same dataset with "
+               "the same mappers (what Preloads.set_* establish: when to preload is C15's); the w-tilde class writes the function lists' "
+               "blocks into the preloaded data_vector_mapper array (not fingerprinted: its mapper blocks are what is judged)",
+               "data / noise map stored natively (store_native=True) are refused by both classes (ValueError): outside the domain"]
 
 PSF_SHAPES = [(1, 1), (1, 3), (3, 1), (3, 3), (3, 3), (3, 5), (5, 3), (1, 5), (5, 1), (5, 5), (1, 7), (7, 1)]
 NOISE = [Fraction(1, 2), Fraction(1), Fraction(2), Fraction(4)]
@@ -228,7 +249,7 @@ def synth_preload(rng, n):
 
 EXTS_DS = ["psf_tiny", "data_tiny", "noise_huge", "noise_tiny", "psf_huge", "data_huge", "noise_spread", "zero_data", "flat", "psf_tiny"]
 EXTS_COL = ["tiny", "huge", "zero", "neg"]
-SESS_STEPS = ["objs2", "iface", "preload", "edit_data", "edit_func", "ds2", "iface_noise0", "remask", "oversampling", "defaults"]
+SESS_STEPS = ["objs2", "iface", "preload", "edit_data", "edit_func", "ds2", "iface_noise0", "remask", "oversampling", "defaults", "derived"]
 
 def n_unmasked(ds): return sum(1 for r in ds["m"] for b in r if not b)
 
@@ -251,8 +272,8 @@ def gen_inputs(tier, rng):
     n_sess = 45 if thorough else 9
     n_util = 40 if thorough else 6
     maxpix = 20 if thorough else 14
-    n_kind = 60 if thorough else 12
-    n_preld = 30 if thorough else 4
+    n_kind = 36 if thorough else 12
+    n_preld = 18 if thorough else 4
     for i in range(n_inv):
         # every third case carries one extreme: a dataset-level one (power-of-two factors, zero data, exact ties) or a column-level
         # one (a basis column scaled by 2^-20 / 2^20 / zero / negative throughout); geometry: anisotropic pixel scales, shifted origin
@@ -312,22 +333,28 @@ def gen_inputs(tier, rng):
     # input kinds / constructor paths / subclasses / entry points (run_kinds): rotations, so that every value of every axis occurs in
     # the quick tier, the axes being out of phase with each other
     KOBJ = [["rect", "func"], ["func", "rect", "func"], ["rect", "func", "rect"], ["rect", "rect"], ["func"], ["rect"], ["func", "func", "rect"]]
-    CONSTRUCT = ["apply_mask", "masked_arrays", "interface", "apply_mask_twice"]
+    CONSTRUCT = ["apply_mask", "masked_arrays", "interface", "apply_mask_twice", "normalized", "from_fits"]
     ENTRY = ["Inversion", "imaging_from", "class", "positional", "preloads"]
     for i in range(n_kind):
         v = {"data_kind": ARRAY_KINDS[i % 6], "noise_kind": ARRAY_KINDS[(i + 2) % 6], "psf_kind": ARRAY_KINDS[(i + 4) % 6],
-             "construct": CONSTRUCT[i % 4], "entry": ENTRY[i % 5], "sub_struct": i % 2 == 1, "sub_dataset": i % 3 == 1,
+             "construct": CONSTRUCT[(i + i // 6) % 6], "entry": ENTRY[i % 5], "sub_struct": i % 2 == 1, "sub_dataset": i % 3 == 1,
              "sub_settings": i % 3 == 2, "psf_ps": [None, ["3", "1/3"], None, ["1/8", "5"]][(i // 2) % 4], "extra_settings": i % 4 == 3}
         while True:
             ds = rand_dataset(rng, 8, None, rng.choice(GEOMS), tight=[None, "h", "w"][i % 3],
                               noise_choices=[Fraction(1), Fraction(2), Fraction(4)] if v["noise_kind"] == "int" else None)
             if ds["m"] is not None and (n_unmasked(ds) >= 2 or i % 5 == 4): break
+        if v["construct"] in ("normalized", "from_fits"):
+            # the library's DEFAULT use_normalized_psf=True (Imaging.from_fits has no other): a non-negative kernel, divided by its sum
+            ds["K"] = [[S(x) for x in r] for r in rand_kernel(rng, len(ds["K"]), len(ds["K"][0]), "nonneg")]
         n = n_unmasked(ds)
         objs = [rand_obj(rng, n, k) for k in KOBJ[i % len(KOBJ)]]
         for j, o in enumerate(objs):
             o["subclass"] = (i + j) % 2 == 0
             if o["kind"] == "func":
                 o["mkind"] = FUNC_KINDS[(i + j) % len(FUNC_KINDS)]
+                if o["mkind"] in ("int", "float32") and o["ov"] is None and rng.random() < 0.6:
+                    # an operated_mapping_matrix_override of that kind: it reaches the assembly as it is (no convolution in between)
+                    o["ov"] = [[S(rand_vals(rng, False)) for _ in range(o["P"])] for _ in range(n)]
                 if o["mkind"] == "int":      # integral basis functions (rand_vals gives multiples of 1/4)
                     for key in ("M", "ov"):
                         if o[key] is not None: o[key] = [[S(Fraction(x) * 4) for x in r] for r in o[key]]
@@ -353,7 +380,7 @@ def gen_inputs(tier, rng):
     for i in range(n_util):
         for op in ("dv_blurred", "curv_mapping", "add_diag", "mirror", "wt", "curv_preload", "off_preload", "dv_wtd",
                    "off_mapper_func", "dlfm", "mapped_unique", "mapped_matrix", "dense_w"):
-            yield {"op": op, "seed": rng.randrange(10 ** 9)}
+            yield {"op": op, "seed": rng.randrange(10 ** 9), "k": i}
 
 # ----------------------------------------------------------------------------- Coq printing
 def cmask(m): return clist([clist([cbool(b) for b in r]) for r in m])
@@ -590,6 +617,22 @@ def run_inv(aa, inp):
     tally("objs:" + kinds); tally(f"psf:{len(K)}x{len(K[0])}"); tally("signed_psf" if any(v < 0 for r in K for v in r) else "nonneg_psf")
     tally("exact" if exact else "tolerance"); tally("ext:" + str(ext)); tally("geom:" + ("unit" if "ps" not in ds else "x".join(ds["ps"])))
     has_mapper = any(o["kind"] != "func" for o in inp["objs"])
+    # (h) rare states of the assembly, tallied (the evidence shows how often the generators reach them)
+    for lo, o in zip(los, inp["objs"]):
+        if o["kind"] != "func":
+            Mm = np.asarray(lo.mapping_matrix)
+            if np.any(np.all(Mm == 0, axis=0)): tally("state:mapper_pixel_without_data")
+            if lo.params == 1: tally("state:mapper_with_one_pixel")
+            if np.any(np.asarray(lo.unique_mappings.pix_lengths) == 1): tally("state:data_pixel_in_one_source_pixel")
+    un = [(y, x) for y in range(len(m)) for x in range(len(m[0])) if not m[y][x]]
+    in_range = sum(1 for a in range(n) for b in range(a, n) if abs(un[a][0] - un[b][0]) <= 2 * (len(K) // 2) and abs(un[a][1] - un[b][1]) <= 2 * (len(K[0]) // 2))
+    if has_mapper:
+        if int(np.sum(dataset.w_tilde.lengths)) < in_range: tally("state:preload_drops_zero_overlap_inside_range")
+        if np.any(np.asarray(dataset.w_tilde.curvature_preload) < 0): tally("state:negative_overlap_in_preload")
+        if np.any(np.asarray(dataset.w_tilde.lengths) == 0): tally("state:preload_row_empty")
+    kinds_l = [o["kind"] != "func" for o in inp["objs"]]
+    if len(kinds_l) == 3 and kinds_l[0] and not kinds_l[1] and kinds_l[2]: tally("state:function_list_between_two_mappers")
+    if sum(kinds_l) == 3: tally("state:three_mappers")
     rrng = random.Random(inp["rseed"])
     terms, outs, detail = [], {}, {}
     py_ok = True
@@ -775,6 +818,19 @@ def run_sess(aa, inp):
                 descs.append(o2)
             los_r = [build_obj(aa, mask2, o, n - 1)[0] for o in descs]
             observe("remask", A2, los_r, descs, wts=[A2.w_tilde, wA])
+        elif step == "derived":
+            # (b) the parts of the dataset handed over as DERIVED structures with the same values: copies, deep copies, results of
+            # arithmetic, the slim view of a natively stored array, the slim view of the native view
+            import copy as _copy
+            routes = {"copy": _copy.copy, "deepcopy": _copy.deepcopy, "times_one": lambda a: a * 1.0, "plus_zero": lambda a: a + 0.0,
+                      "native_slim": lambda a: a.native.slim,
+                      "slim_of_stored_native": lambda a: aa.Array2D(values=np.array(a.native), mask=a.mask, store_native=True).slim,
+                      "minus_minus": lambda a: -(-a)}
+            names = sorted(routes); r1, r2 = rrng.choice(names), rrng.choice(names)
+            tally("derived:" + r1); tally("derived:" + r2)
+            DI = aa.DatasetInterface(data=routes[r1](A.data), noise_map=routes[r2](A.noise_map), convolver=A.convolver, w_tilde=A.w_tilde, grids=A.grids)
+            observe("derived", DI, los, objs, wts=[wA])
+            observe("after_derived", A, los, objs, wts=[wA], uses=(True,))
         elif step == "defaults":
             # calls that leave settings / preloads out share ONE SettingsInversion() / Preloads() object per signature for the whole
             # process: first dataset, then another dataset on the same mask (other psf / noise / data), then the first again, through
@@ -817,8 +873,21 @@ def build_dataset_k(aa, ds, v):
             DIcls = sub["Interface"] if v["sub_dataset"] else aa.DatasetInterface
             return DIcls(data=A.data, noise_map=A.noise_map, convolver=A.convolver, w_tilde=A.w_tilde, grids=A.grids), mask
         return A, mask
+    if c == "from_fits":
+        # the constructor classmethod: three FITS files written by output_to_fits, read back (psf normalized: no other choice there)
+        import tempfile, shutil, os
+        tmp = tempfile.mkdtemp(prefix="c04_fits_")
+        try:
+            A0 = aa.Imaging(data=aa.Array2D.no_mask(values=D, pixel_scales=ps, origin=org), noise_map=aa.Array2D.no_mask(values=N, pixel_scales=ps, origin=org),
+                            psf=psf, use_normalized_psf=False)
+            paths = {k: os.path.join(tmp, k + ".fits") for k in ("data", "noise_map", "psf")}
+            A0.output_to_fits(data_path=paths["data"], psf_path=paths["psf"], noise_map_path=paths["noise_map"], overwrite=True)
+            A = Icls.from_fits(pixel_scales=ps, data_path=paths["data"], noise_map_path=paths["noise_map"], psf_path=paths["psf"])
+        finally: shutil.rmtree(tmp, ignore_errors=True)
+        return A.apply_mask(mask=mask), mask
+    nkw = {} if c == "normalized" else {"use_normalized_psf": False}
     A = Icls(data=aa.Array2D.no_mask(values=D, pixel_scales=ps, origin=org), noise_map=aa.Array2D.no_mask(values=N, pixel_scales=ps, origin=org),
-             psf=psf, use_normalized_psf=False)
+             psf=psf, **nkw)
     if c == "apply_mask_twice":
         # first ANOTHER mask (every other admissible pixel: some pixels of the real mask are masked in it, others not; its convolver and
         # w_tilde used), then the real mask: the values must come from the unmasked dataset, not from the first masked one
@@ -845,6 +914,12 @@ def run_kinds(aa, inp):
     n = int(mask.pixels_in_mask)
     los = [build_obj(aa, mask, o, n)[0] for o in inp["objs"]]
     d = slim_of(ds, "data"); s = slim_of(ds, "noise")
+    tol = Fraction(0)
+    if v["construct"] in ("normalized", "from_fits"):
+        # the kernel in force is the descriptor's divided by its sum (doubles): the live kernel, checked against that, enters the model
+        Kl = np.array(dataset.psf.native); Kd = fl(ds["K"])
+        if not np.allclose(Kl, Kd / Kd.sum(), rtol=1e-12, atol=0): raise AssertionError("psf in force is not the normalized kernel")
+        K = fm(Kl); tol = Fraction(1, 10 ** 9)
     hdr = f"{cmask(m)} {cqm(K)}"
     cobjs = clist([cobj(aa, lo, o) for lo, o in zip(los, inp["objs"])])
     has_mapper = any(o["kind"] != "func" for o in inp["objs"])
@@ -874,10 +949,10 @@ def run_kinds(aa, inp):
         tally("class_as_modelled" if is_wt == (use and has_mapper) else "class_differs_from_model")
         B, D, F = np.array(inv.operated_mapping_matrix), np.array(inv.data_vector), np.array(inv.curvature_matrix)
         eps = Fraction(inp["eps"])
-        terms.append(f"(KInv {hdr} {cqv(d)} {cqv(s)} {cobjs} {cbool(is_wt)} {cq(eps)} {cq(0)} {cqm(fm(B))} {cqv(fv(D))} {cqm(fm(F))})")
+        terms.append(f"(KInv {hdr} {cqv(d)} {cqv(s)} {cobjs} {cbool(is_wt)} {cq(eps)} {cq(tol)} {cqm(fm(B))} {cqv(fv(D))} {cqm(fm(F))})")
         # the per-object views of one injected reconstruction
         P = B.shape[1]
-        if r is None: r = [Fraction(rrng.randint(-9, 9), 2) for _ in range(P)]      # half-integers: an integer-typed buffer truncates
+        if r is None: r = [Fraction(2 * rrng.randint(-9, 8) + 1, 8) for _ in range(P)]      # odd eighths: an integer-typed buffer truncates
         inv.__dict__["reconstruction"] = flv(r)
         dct = inv.mapped_reconstructed_data_dict
         if [id(k) for k in dct.keys()] != [id(lo) for lo in los]: py_ok = False; detail[f"dict_keys:{use}"] = "not the objects in order"
@@ -886,7 +961,7 @@ def run_kinds(aa, inp):
         for i, lo in enumerate(los):
             ri = [x if start <= j < start + lo.params else Fraction(0) for j, x in enumerate(r)]
             part = np.array(dct[lo]); parts.append(part)
-            terms.append(f"(KMapped {hdr} {cnat(n)} {cobjs} {cbool(is_wt)} {cq(0)} {cqv(ri)} {cqv(fv(part))})")
+            terms.append(f"(KMapped {hdr} {cnat(n)} {cobjs} {cbool(is_wt)} {cq(tol)} {cqv(ri)} {cqv(fv(part))})")
             if not np.array_equal(np.array(rd[lo]), flv(r[start:start + lo.params])): py_ok = False; detail[f"reconstruction_dict:{use}"] = i
             start += lo.params
         total = np.array(inv.mapped_reconstructed_data)
@@ -999,10 +1074,10 @@ class KindedModule:
     values -- float64 copy, integer-typed where every value is integral (a result buffer that inherits the argument's dtype
     truncates), int32 indices, Fortran-ordered, a strided view into a larger array -- READ-ONLY (a function that writes into its
     argument raises) and fingerprinted before and after the call"""
-    def __init__(self, mod, rng, flags): self._mod, self._rng, self._flags = mod, rng, flags
+    def __init__(self, mod, rng, flags, prefer_int=False): self._mod, self._rng, self._flags, self._int = mod, rng, flags, prefer_int
     def _vary(self, fname, k, a):
         if not isinstance(a, np.ndarray) or (fname, k) in UTIL_INPLACE: return a
-        if a.dtype.kind == "f": b = as_kind(a, self._rng.choice(["float", "int", "fortran", "view"]))
+        if a.dtype.kind == "f": b = as_kind(a, "int" if self._int else self._rng.choice(["float", "int", "fortran", "view"]))
         elif a.dtype.kind in "iu":
             kind = self._rng.choice(["same", "int32", "view"])
             if kind == "int32": b = a.astype(np.int32)
@@ -1036,12 +1111,18 @@ def run_util_(aa, inp, flags):
     from autoarray.inversion.inversion import inversion_util as iu
     from autoarray.inversion.inversion.imaging import inversion_imaging_util as iiu
     krng = random.Random(inp["seed"] + 977)
-    iu = KindedModule(iu, krng, flags); iiu = KindedModule(iiu, krng, flags)
+    # every other round: integral matrices handed over integer-typed wherever possible (the informative kind), else random kinds
+    prefer_int = inp.get("k", 1) % 2 == 0
+    iu = KindedModule(iu, krng, flags, prefer_int); iiu = KindedModule(iiu, krng, flags, prefer_int)
     op = inp["op"]; rng = random.Random(inp["seed"])
     base = dict(py_ok=None, nontrivial=True, kind="util:" + op)
     tally("util:" + op)
     Z0 = Fraction(0)
-    def rmat(n, p, sparse=True): return [[rand_vals(rng, sparse) for _ in range(p)] for _ in range(n)]
+    def rmat(n, p, sparse=True):
+        M = [[rand_vals(rng, sparse) for _ in range(p)] for _ in range(n)]
+        # integral throughout in every other round (and now and then otherwise), so that the integer-typed kind of the argument (KindedModule) is often possible
+        if prefer_int or krng.random() < 0.2: M = [[Fraction(round(x)) for x in r] for r in M]
+        return M
     def rnoise(n): return [rng.choice(NOISE) for _ in range(n)]
     def enc_arrays(e):
         return (np.array(e["du"], dtype=int).reshape(len(e["du"]), -1), fl(e["dw"]).reshape(len(e["dw"]), -1), np.array(e["pl"], dtype=int))
